@@ -36,6 +36,9 @@ class MDriver(object):
         self.sim = Sim(hold_time=cfg.get('hold', 180), idle_hold_time=cfg.get('idle_hold', 30),
                        connect_retry_time=cfg['connect_retry'])
         self.sim.reactor.probe = lambda: self.sim.fsm.protocol
+        # the connectionLost that follows the agent's own loseConnection is delivered by the harness
+        # as an event of its own ('io'): Twisted only promises "a later reactor iteration"
+        self.sim.reactor.defer_io = cfg.get('defer_io', True)
         self.failures = []
         self.history = []
         self.booted = False
@@ -70,6 +73,8 @@ class MDriver(object):
             for p in range(min(6, _fact(ndue))):
                 ev.append(['tick', p])
         ev += [['stop'], ['start']]
+        if r.pending_io():
+            ev.append(['io'])
         return ev
 
     def apply(self, ev):
@@ -105,6 +110,8 @@ class MDriver(object):
                 self.nontrivial = True
         elif k == 'close':
             r.peer_close(self.live()[ev[1]])
+        elif k == 'io':
+            r.deliver_io(0)
         else:
             c = self.live()[ev[1]]
             self.n += 1
@@ -136,6 +143,9 @@ class MDriver(object):
     def quiesce(self):
         """end of sequence: every connection the agent opened must end up tracked or closed"""
         sim, r = self.sim, self.sim.reactor
+        while r.pending_io():
+            r.deliver_io(0)
+        r.defer_io = False
         r.settle(fire_due=True)
         horizon = r.now + self.cfg.get('idle_hold', 30) + 240 + self.cfg.get('hold', 180) + 1
         # let pending attempts time out and timers run; the peer stays silent
@@ -173,7 +183,9 @@ class MDriver(object):
                               c.protocol is fsm.protocol and c.protocol is not None,
                               round(c.timeoutID.time - now, 6) if c.timeoutID is not None and c.timeoutID.active() else None))
         return (fsm.state, fsm.allow_automatic_start, fsm.hold_time, tmr(fsm.connect_retry_timer), tmr(fsm.hold_timer),
-                tmr(fsm.keep_alive_timer), tmr(fsm.idle_hold_timer), tuple(conns), len(sim.reactor._soon), self.booted)
+                tmr(fsm.keep_alive_timer), tmr(fsm.idle_hold_timer), tuple(conns), len(sim.reactor._soon), self.booted,
+                sim.peering.connector is not None if hasattr(sim.peering, 'connector') else None,
+                sim.peering.estab_protocol is fsm.protocol)
 
 
 def _fact(n):
@@ -277,7 +289,7 @@ def shards(tier):
 def pick(enabled, choice):
     weighted = []
     for ev in enabled:
-        w = 3 if ev[0] == 'tick' else (2 if ev[0] in ('ok', 'start', 'stop') else 1)
+        w = 3 if ev[0] in ('tick', 'io') else (2 if ev[0] in ('ok', 'start', 'stop') else 1)
         weighted += [ev] * w
     return weighted[choice % len(weighted)]
 
